@@ -150,6 +150,11 @@ func genIsolationPlan(seed uint64, tier string) *Plan {
 				op.S["keepalive"] = "1"
 			}
 		}
+		if op.S["keepalive"] == "" && g.chance(8) {
+			// blank lines ahead of the message inside the datagram (RFC 3261 7.5: ignored)
+			op.Data = append([]byte(g.pick("\r\n", "\r\n\r\n", "\n", "\r\n\r\n\r\n")), op.Data...)
+			op.S["leadingBlank"] = "1"
+		}
 		// most arrivals are simultaneous bursts
 		if g.chance(75) && i > 0 {
 			op.DelayUs = 0
